@@ -685,7 +685,7 @@ func (repo *Repository) GetHeaders(ctx context.Context,
 	result := make([]*wire.BlockHeader, 0, maxCount)
 	headersFile := -1
 	var headersData []*HeaderData
-	for height := startHeight; ; height++ {
+	for height := startHeight; height <= repo.longest.Height(); height++ {
 		at := repo.longest.AtHeight(height)
 		if at != nil {
 			result = append(result, at.Header)
